@@ -503,9 +503,44 @@ package raft
 // a candidate takes the leadership exactly when the granted votes recorded for this candidacy reach the majority
 // of the voters; a pre-candidate then starts the real election; a majority of rejections makes it a follower
 //@ func stepCandidate(r *raft, m pb.Message) bool
-//@   requires stepKeeps(r) && r.votes != nil && (r.state == StateCandidate || r.state == StatePreCandidate) && r.Term < 18446744073709551614 && (m.Type == pb.MsgApp || m.Type == pb.MsgHeartbeat || m.Type == pb.MsgSnap ==> m.Term >= r.Term)
+//@   requires stepKeeps(r) && r.votes != nil && (r.state == StateCandidate || r.state == StatePreCandidate) && r.Term < 18446744073709551614 && (m.Type == pb.MsgApp || m.Type == pb.MsgHeartbeat || m.Type == pb.MsgSnap ==> m.Term >= r.Term) && (m.Type == pb.MsgApp ==> msgAppOK(r, m))
 //@   callassert becomeLeader gr == countTrue(r.votes) && gr == len(r.prs) / 2 + 1 && r.state == StateCandidate && m.Type == pb.MsgVoteResp
 //@   callassert campaign gr == countTrue(r.votes) && gr == len(r.prs) / 2 + 1 && r.state == StatePreCandidate && m.Type == pb.MsgPreVoteResp && arg1 == campaignElection
 //@   ensures ghost(leaderships, r) != old(ghost(leaderships, r)) ==> (old(r.state) == StateCandidate && m.Type == pb.MsgVoteResp && r.Term == old(r.Term)) || (old(r.state) == StatePreCandidate && m.Type == pb.MsgPreVoteResp && old(len(r.prs)) / 2 + 1 <= 1)
 //@   ensures r.Term >= old(r.Term)
 //@   modifies *
+
+//@ property C02
+// ---- what a follower tells the leader, and what the leader believes ----
+// A follower acknowledges (MsgAppResp, not rejected) exactly the index up to which its log now agrees with the
+// leader's message (or its own commit index for a stale message); a rejection changes nothing in its log.
+// a well-formed MsgApp as a leader builds it (wire-level assumption of the receiving side)
+//@ spec msgAppOK(r *raft, m pb.Message) bool = m.LogTerm != 0 && m.Index >= 1 && m.Index + len(m.Entries) + 1 < 4611686018427387904 && contig(m.Entries, m.Index + 1) && (forall k int :: 0 <= k && k < len(m.Entries) ==> m.Entries[k].Term != 0) && r.raftLog.unstable.entries.arr != m.Entries.arr && ghost(sfirst, r.raftLog.storage) <= m.Index + 1
+//@ func (r *raft) handleAppendEntries(m pb.Message)
+//@   requires rOK(r) && msgAppOK(r, m)
+//@   ensures len(r.msgs) == old(len(r.msgs)) + 1 && r.msgs[len(r.msgs)-1].Type == pb.MsgAppResp && r.msgs[len(r.msgs)-1].To == m.From
+//@   ensures old(m.Index < r.raftLog.committed) ==> !r.msgs[len(r.msgs)-1].Reject && r.msgs[len(r.msgs)-1].Index == old(r.raftLog.committed) && r.raftLog.committed == old(r.raftLog.committed) && llast(r.raftLog) == old(llast(r.raftLog))
+//@   ensures old(m.Index >= r.raftLog.committed) && !r.msgs[len(r.msgs)-1].Reject ==> r.msgs[len(r.msgs)-1].Index == m.Index + len(m.Entries) && lterm(r.raftLog, m.Index) == m.LogTerm && (forall k int :: 0 <= k && k < len(m.Entries) ==> lterm(r.raftLog, m.Index + 1 + k) == old(m.Entries[k].Term))
+//@   ensures r.msgs[len(r.msgs)-1].Reject ==> r.msgs[len(r.msgs)-1].Index == m.Index && r.raftLog.committed == old(r.raftLog.committed) && llast(r.raftLog) == old(llast(r.raftLog))
+//@   ensures r.raftLog.committed >= old(r.raftLog.committed) && lOK(r.raftLog)
+//@   ensures r.Term == old(r.Term) && r.Vote == old(r.Vote) && r.state == old(r.state) && r.id == old(r.id) && ghost(leaderships, r) == old(ghost(leaderships, r))
+//@   modifies *
+
+// the leader's view of a follower only moves forward on an acknowledgement, and Next stays above Match
+//@ func (pr *Progress) resume()
+//@   inline
+//@ func (pr *Progress) pause()
+//@   inline
+//@ func (pr *Progress) maybeUpdate(n uint64) bool
+//@   requires pr != nil && n < 18446744073709551615
+//@   ensures pr.Match == max(old(pr.Match), n) && pr.Next == max(old(pr.Next), n + 1)
+//@   ensures result <==> old(pr.Match) < n
+//@   modifies pr.Match, pr.Next, pr.Paused
+//@ func (pr *Progress) maybeDecrTo(rejected, last uint64) bool
+//@   requires pr != nil && pr.Match < 18446744073709551615 && last < 18446744073709551615 && pr.Next >= 1
+//@   ensures pr.Match == old(pr.Match)
+//@   ensures !result ==> pr.Next == old(pr.Next)
+//@   ensures result ==> pr.Next >= 1
+//@   ensures result && old(pr.State) == ProgressStateReplicate ==> pr.Next == pr.Match + 1
+//@   ensures result && old(pr.State) != ProgressStateReplicate ==> pr.Next == max(min(rejected, last + 1), 1)
+//@   modifies pr.Next, pr.Paused
